@@ -15,6 +15,14 @@ clause "neither aborts nor hangs" of the real process (tested only).
 namespace TantivyModel.C11
 open TantivyModel TantivyModel.Faults
 
+/-- the code shapes that `Model/Faults.lean` mirrors are the ones the extractor finds in the
+source now (a missing or reordered step makes the item fail to extract and this theorem fail) -/
+theorem C11_mirrored_code_shape :
+    Gen.COMMIT_TASK_PROPAGATES = 1 ∧ Gen.SAVE_METAS_SYNC_THEN_ATOMIC_WRITE = 1 ∧
+    Gen.PREPARE_COMMIT_JOINS_AND_PROPAGATES = 1 ∧ Gen.ADD_CHECKS_ALIVE = 1 ∧
+    Gen.MERGE_ERRORS_GO_TO_FUTURE = 1 ∧ Gen.END_MERGE_PROPAGATES = 1 ∧
+    Gen.GC_KEEPS_UNDELETED_MANAGED = 1 ∧ 0 < codeCap := by decide
+
 /-- **A commit that returns `Ok` is complete.** In every faulty run, if a `commit` of a writer
 that has reported no error since it was created / rolled back returns `Ok`, then none of the
 storage phases its result depends on failed (worker flush, purge, `save_metas`), `meta.json`
@@ -154,6 +162,10 @@ theorem C11_last_commit_intact (cap : Nat) (F : Nat → Plan) (cs : List Call) (
       · exact gcRun_meta _ _ _
       · exact gcRun_meta _ _ _
     | reload =>
+      exfalso; apply hne
+      simp only [call]
+      split <;> rfl
+    | removeLock =>
       exfalso; apply hne
       simp only [call]
       split <;> rfl
@@ -392,6 +404,9 @@ theorem C11_no_wait_cycle_partial (cap : Nat) (F : Nat → Plan) (cs : List Call
   | reload =>
     simp only [call] at hh
     split at hh <;> cases hh
+  | removeLock =>
+    simp only [call] at hh
+    cases hh
 
 /-- witness with a channel of capacity 2: after the failed commit the third add blocks -/
 theorem C11_no_wait_cycle_counterexample :
